@@ -270,9 +270,18 @@ def r195(db, ctx, F):
         ok = False
         if b:
             ln = b['$len']
-            want = {f'({DM}::rows(arg1))*({DM}::stride(arg1))'}
-            l = X.lin(ln)
-            ok = set(l) == want or set(l) == {f'({DM}::stride(arg1))*({DM}::rows(arg1))'}
+            # rows() is the trivial getter of the `rows` field (R19.2 keeps the field equal to data.len()): both spellings denote the same quantity
+            fs = []
+
+            def factors(x):
+                if x[0] == 'bin' and x[1] in ('Mul', 'MulUnchecked'):
+                    factors(x[2]); factors(x[3])
+                else:
+                    fs.append(x)
+            factors(ln)
+            is_rows = lambda x: m(('call~', 'DenseMatrix::rows', (('p', 1),)), x) is not None or x == ('fld', ('p', 1), F['rows'])
+            is_stride = lambda x: m(('call~', 'DenseMatrix::stride', (('p', 1),)), x) is not None
+            ok = len(fs) == 2 and ((is_rows(fs[0]) and is_stride(fs[1])) or (is_rows(fs[1]) and is_stride(fs[0])))
         if ok:
             n += 1
             ctx.ok('R19.5', f, f'{nm}: {ctor}(data.{ptr}(), rows()*stride())', ['R19.1: rows are contiguous Row-sized blocks'])
